@@ -75,6 +75,95 @@ def _descent_fields(fi, call, seen=None):
     return fields
 
 
+def _kind_guard(fi, call, var):
+    """(allowed kinds | None, excluded kinds) that the isinstance tests dominating `call` establish
+    for the local variable `var` (if/elif chains; the else arm of a test excludes its kinds)."""
+    allowed, excluded = None, set()
+
+    def kinds_of(t):
+        if isinstance(t, ast.Call) and isinstance(t.func, ast.Name) and t.func.id == "isinstance" and len(t.args) == 2 and isinstance(t.args[0], ast.Name) and t.args[0].id == var:
+            k = t.args[1]
+            elts = k.elts if isinstance(k, ast.Tuple) else [k]
+            names = [e.id if isinstance(e, ast.Name) else (e.attr if isinstance(e, ast.Attribute) else None) for e in elts]
+            if all(names):
+                return set(names)
+        return None
+
+    def walk(stmts):
+        nonlocal allowed, excluded
+        for st in stmts:
+            if not any(x is call for x in ast.walk(st)):
+                continue
+            if isinstance(st, ast.If):
+                t = st.test
+                neg = False
+                if isinstance(t, ast.UnaryOp) and isinstance(t.op, ast.Not):
+                    t, neg = t.operand, True
+                ks = kinds_of(t)
+                in_body = any(x is call for b in st.body for x in ast.walk(b))
+                if ks is not None:
+                    positive = in_body != neg
+                    if positive:
+                        allowed = ks if allowed is None else allowed & ks
+                    else:
+                        excluded |= ks
+                walk(st.body if in_body else st.orelse)
+            else:
+                for blk in ("body", "orelse", "finalbody"):
+                    walk(getattr(st, blk, []) or [])
+                for h in getattr(st, "handlers", []) or []:
+                    walk(h.body)
+            return
+
+    walk(fi.node.body)
+    return allowed, excluded
+
+
+def _prune_infeasible(cg, comp):
+    """Remove from a call cycle the functions that cannot be an INTERMEDIATE step of it: every way
+    into g passes a value that the isinstance guards exclude from every way out of g (the value is
+    handed on unchanged as g's parameter).  E.g. f calls g(x) only when x is not a Tuple/List and g
+    calls f back only when its parameter is one."""
+    comp = list(comp)
+    changed = True
+    while changed and len(comp) > 1:
+        changed = False
+        for g in list(comp):
+            gi = cg.funcs[g]
+            gparams = [a.arg for a in gi.node.args.posonlyargs + gi.node.args.args]
+            if gparams and gparams[0] in ("self", "cls"):
+                gparams = gparams[1:]
+            ins = [(f, call) for f in comp for call, tgt in cg.call_sites[f] if getattr(tgt, "fq", None) == g and f != g]
+            outs = [(call, tgt.fq) for call, tgt in cg.call_sites[g] if getattr(tgt, "fq", None) in comp and tgt.fq != g]
+            if not ins or not outs:
+                continue
+            feasible = False
+            for f, c_in in ins:
+                for c_out, _h in outs:
+                    ok = True
+                    for i, a in enumerate(c_in.args):
+                        if not isinstance(a, ast.Name) or i >= len(gparams):
+                            continue
+                        p = gparams[i]
+                        # g must not rebind the parameter
+                        if any(isinstance(n, ast.Name) and n.id == p and isinstance(n.ctx, ast.Store) for n in ast.walk(gi.node)):
+                            continue
+                        a_allowed, a_excl = _kind_guard(cg.funcs[f], c_in, a.id)
+                        b_allowed, b_excl = _kind_guard(gi, c_out, p)
+                        if b_allowed is not None and b_allowed <= a_excl:
+                            ok = False
+                        if a_allowed is not None and a_allowed <= b_excl:
+                            ok = False
+                        if a_allowed is not None and b_allowed is not None and not (a_allowed & b_allowed):
+                            ok = False
+                    if ok:
+                        feasible = True
+            if not feasible:
+                comp.remove(g)
+                changed = True
+    return comp
+
+
 def rule_r1(ctx):
     rr = RuleResult("C17-R1", "recursion in the repository: only over bracket-nesting patterns; the three drivers are cycle-free")
     rr.exhaustive = True
@@ -98,6 +187,15 @@ def rule_r1(ctx):
     for comp in sccs:
         rr.instances += 1
         what = "scc|" + "+".join(c.split(":")[1] for c in comp)
+        pruned = _prune_infeasible(cg, comp)
+        if len(pruned) < len(comp):
+            rest = [c for c in pruned if any(getattr(t, "fq", None) in pruned for _c, t in cg.call_sites[c])]
+            # is there still a cycle among the remaining functions?
+            sub = cg.sccs(set(rest)) if rest else []
+            sub = [c2 for c2 in sub if set(c2) <= set(pruned)]
+            if not sub:
+                rr.ok(what, sample={"rule": "C17-R1", "cycle": [c.split(":")[1] for c in comp], "verdict": "not a cycle: the isinstance guards on the two call edges exclude each other (runs at most once)"})
+                continue
         bad = None
         union = set()
         first = None
